@@ -1,10 +1,10 @@
 #!/usr/bin/env python3
 # dev helper: re-run the mutants that survived (status 'survived' in /tmp/mutres.jsonl) against the current
-# checker build; prints those still surviving and writes /tmp/mutres2.jsonl with the new status.
+# checker build; prints those still surviving and writes /tmp/recheck_out.jsonl with the new status.
 import json, os, subprocess, sys, tempfile, shutil, concurrent.futures, threading
 env=dict(os.environ, GOFLAGS='-mod=mod', GOPROXY='off', GOSUMDB='off', GOTOOLCHAIN='local', GOWORK='off')
 muts={}
-for l in open('/tmp/mutants.jsonl'):
+for l in open(os.environ.get('MUTS','/tmp/mutants.jsonl')):
     m=json.loads(l); muts[m['id']]=m
 res=[json.loads(l) for l in open(sys.argv[1] if len(sys.argv)>1 else '/tmp/mutres.jsonl')]
 surv=[r for r in res if r['status'] in ('survived',)]
@@ -26,7 +26,7 @@ def run(r):
         return r
     finally:
         open(path,'wb').write(orig)
-out=open('/tmp/mutres2.jsonl','w')
+out=open('/tmp/recheck_out.jsonl','w')
 with concurrent.futures.ThreadPoolExecutor(max_workers=int(os.environ.get('W','8'))) as ex:
     for r in ex.map(run,surv):
         out.write(json.dumps(r)+'\n')
